@@ -175,7 +175,7 @@ func randomApiStep(r *rand.Rand, sc *Scenario, tickMax int) Step {
 	return Step{When: When{Tick: 1 + r.Intn(tickMax)}, Do: Op{Kind: pick(r, "stop", "start", "restart", "stop", "restart"), P: p}}
 }
 
-var runGates = []string{"spawned", "run.precheck", "run.validated", "run.launch", "run.reaped", "run.decide", "run.backoff"}
+var runGates = []string{"spawned", "run.precheck", "run.validated", "run.launch", "run.launch.locked", "run.reaped", "run.decide", "run.backoff"}
 
 func genGating(r *rand.Rand, sc *Scenario) {
 	n := 2 + r.Intn(4)
@@ -236,7 +236,7 @@ func genRestart(r *rand.Rand, sc *Scenario) {
 	case 1:
 		sc.Steps = append(sc.Steps, Step{When: When{Tick: 1 + r.Intn(50)}, Do: Op{Kind: pick(r, "stop", "shutdown"), P: "a"}})
 	default:
-		g := pick(r, "run.reaped", "run.decide", "run.backoff", "run.launch", "run.precheck", "run.validated")
+		g := pick(r, "run.reaped", "run.decide", "run.backoff", "run.launch", "run.launch.locked", "run.precheck", "run.validated")
 		sc.Steps = append(sc.Steps, Step{
 			When:      When{Gate: g, P: "a", Nth: 1 + r.Intn(3)},
 			Do:        Op{Kind: pick(r, "stop", "stop", "shutdown"), P: "a"},
@@ -433,7 +433,7 @@ func genManual(r *rand.Rand, sc *Scenario) {
 				Step{When: When{Tick: tick}, Do: Op{Kind: pick(r, op, "start", "restart", "stop"), P: name}})
 			tick += pick(r, 4, 12)
 		case mode == 4: // fired inside another call's window
-			g := pick(r, "api.start.checked", "api.restart.stopped", "api.restart.slept", "run.launch", "run.precheck", "stop.cancelled", "stop.checked.running", "stop.checked.notrunning")
+			g := pick(r, "api.start.checked", "api.restart.stopped", "api.restart.slept", "run.launch", "run.launch.locked", "run.precheck", "stop.cancelled", "stop.checked.running", "stop.checked.notrunning")
 			sc.Steps = append(sc.Steps, Step{When: When{Gate: g, P: name, Nth: 1}, Do: Op{Kind: op, P: name}, HoldUntil: pick(r, "opDone", ""), HoldMs: 70})
 			sc.Steps = append(sc.Steps, Step{When: When{Tick: tick}, Do: Op{Kind: pick(r, "start", "restart", "stop"), P: name}})
 			tick += pick(r, 4, 12)
